@@ -460,6 +460,48 @@ func skeleton(fn *ast.FuncDecl) []string {
 	return clean
 }
 
+// callArg: source text of argument idx (negative: from the end) of the first call to callee in fn
+func callArg(p *pkgInfo, fnName, callee string, idx int) string {
+	fn := p.funcs[fnName]
+	res := ""
+	if fn == nil {
+		missing = append(missing, fnName)
+		return ""
+	}
+	ast.Inspect(fn.Body, func(n ast.Node) bool {
+		c, ok := n.(*ast.CallExpr)
+		if !ok || res != "" {
+			return true
+		}
+		name := ""
+		switch f := c.Fun.(type) {
+		case *ast.Ident:
+			name = f.Name
+		case *ast.IndexExpr:
+			if id, ok := f.X.(*ast.Ident); ok {
+				name = id.Name
+			}
+		}
+		if name != callee || len(c.Args) == 0 {
+			return true
+		}
+		i := idx
+		if i < 0 {
+			i = len(c.Args) + i
+		}
+		if i >= 0 && i < len(c.Args) {
+			var sb strings.Builder
+			_ = printer.Fprint(&sb, fset, c.Args[i])
+			res = sb.String()
+		}
+		return true
+	})
+	if res == "" {
+		missing = append(missing, fnName+"->"+callee)
+	}
+	return res
+}
+
 func coqStrList(l []string) string {
 	var q []string
 	for _, x := range l {
@@ -550,6 +592,10 @@ func main() {
 		name := "skel_" + strings.ReplaceAll(fn, ".", "_")
 		fmt.Fprintf(&b, "Definition %s : list string := %s.\n", name, coqStrList(skeleton(p.funcs[fn])))
 	}
+	b.WriteString("\n(* which expression sizes each flow-control window *)\n")
+	fmt.Fprintf(&b, "Definition window_args : list (string * string) := [(\"server.sender\", \"%s\"); (\"server.receiver\", \"%s\"); (\"client.sender\", \"%s\"); (\"client.receiver\", \"%s\")].\n",
+		callArg(p, "tunnelServer.createStream", "newSender", 1), callArg(p, "tunnelServer.createStream", "newReceiver", -1),
+		callArg(p, "tunnelChannel.allocateStream", "newSender", 1), callArg(p, "tunnelChannel.allocateStream", "newReceiver", -1))
 	old, _ := os.ReadFile(os.Args[2])
 	if string(old) != b.String() {
 		if err := os.WriteFile(os.Args[2], []byte(b.String()), 0o644); err != nil {
